@@ -72,7 +72,36 @@ def all_contracts():
     return {k: cs.get(k) for k in cs.by_key}
 
 
+class ScriptTask(object):
+    """a property script (see script.py): fn(script) builds it"""
+    def __init__(self, name, fn, cfg=None, options=None, label=None):
+        self.name = name
+        self.fn = fn
+        self.cfg = cfg or {}
+        self.options = options or {}
+        self.pins = {}
+        self.label = label or (','.join('%s=%s' % kv for kv in sorted(self.cfg.items())) or 'script')
+        self.gen_options = {}
+
+
+def build_script_harness(prop, task, contracts):
+    from script import Script, EmptyContract
+    opts = dict(task.options)
+    opts['contracts'] = {}
+    sc = Script(task.name, task.cfg, opts)
+    task.fn(sc)
+    fn = sc.finish()
+    g = Generator(fn, EmptyContract(), contracts, prop, task.label, task.gen_options)
+    h = g.generate()
+    h.task = task
+    h.fn_key = fn.key
+    h.notes = fn.notes
+    return h
+
+
 def build_harness(prop, task, contracts):
+    if task.__class__.__name__ == 'ScriptTask':
+        return build_script_harness(prop, task, contracts)
     opts = dict(task.options)
     opts['contracts'] = contracts
     t = Translator(opts)
